@@ -140,6 +140,12 @@ def directed(rng, probes=False):
         add('close-vs-send-%d' % v, {'callback': bool(v % 2)}, [op('o1'), D, op('o2', 'batch', [False, True]), dict(a='close'), dict(a='probe', kind='close'), D, dict(a='peerclose'), D])
         add('eof-callback-%d' % v, {'callback': True}, [peer(('call', 7, False)), D, dict(a='peerclose'), D, dict(a='close'), D, dict(a='cbret', id='7'), D])
         add('close-callback-%d' % v, {'callback': True, 'recvUnblocks': e}, [op('o1'), peer(('call', 7, False)), D, dict(a='close'), D, dict(a='peerclose'), D, dict(a='cbret', id='7'), D])
+        # a callback handler that waits for its context: every way the client stops ends that context (Close included, which then returns)
+        add('cb-aware-%d' % v, {'callback': True, 'cbaware': True, 'recvUnblocks': e}, [op('o1'), peer(('call', 7, False)), peer(('call', 8, False)), D, dict(a='cbret', id='8'), D,
+                                                                                     [dict(a='close'), dict(a='peerclose'), dict(a='recverr')][v], D, dict(a='close'), D])
+        # the reply of a callback handler cannot be sent: the channel is still closed once, by whatever ends the client afterwards
+        add('cb-reply-sendfail-%d' % v, {'callback': True, 'recvUnblocks': e}, [peer(('call', 7, False)), D, dict(a='sendfail'), dict(a='cbret', id='7', out=['ok', 'err:7', 'ok'][v]), D,
+                                                                            [dict(a='close'), dict(a='peerclose'), dict(a='sendheal')][v], D, op('o1'), D, dict(a='close'), D])
         add('close-twice-%d' % v, {'callback': True}, [peer(('call', 7, False)), D, dict(a='recverr'), D, dict(a='close'), D, dict(a='cbret', id='7'), D])
         add('reply-after-close-%d' % v, {}, [op('o1'), D, dict(a='close'), peer(R(1)), D])
     return out
